@@ -5,6 +5,7 @@ import SqlModel.Filters.Stage2
 import SqlModel.Filters.Reindent
 import SqlModel.Filters.Aligned
 import SqlModel.Filters.Format
+import SqlModel.Filters.Safe
 /-!
 # SqlModel.FilterDriver — line-protocol commands of the formatting side (used by Main.lean)
 
@@ -227,6 +228,62 @@ def cmdTreeFilter (ws : List String) : String :=
       | .ok ns' => "ok" ++ fsexpL ns'
     | _, _, _ => "bad-request"
   | _ => "bad-request"
+
+/-! `filtersafe`: the decidable domains of SqlModel/Filters/Safe.lean -/
+
+def showBit (b : Bool) : String := if b then "1" else "0"
+
+def safeLine (n : FNode) : String :=
+  "stripcomments=1 spaces=1 stripws=" ++ showBit (FilterSafe.stripws n) ++ " reindent=" ++ showBit (FilterSafe.reindent false n) ++
+    " aligned=" ++ showBit (FilterSafe.aligned n)
+
+def FObj.safe (n : FNode) : FObj → Bool
+  | .stripWs => FilterSafe.stripws n
+  | .reindent .. => FilterSafe.reindent false n
+  | .aligned .. => FilterSafe.aligned n
+  | _ => true
+
+def FObj.label : FObj → String
+  | .stripComments => "stripcomments" | .stripWs => "stripws" | .spaces => "spaces" | .semicolon => "semicolon"
+  | .outPython _ => "outpython" | .outPHP _ => "outphp" | .reindent .. => "reindent" | .aligned .. => "aligned"
+
+/-- one statement through the chain, reporting for every stage its domain predicate on the tree it receives and its outcome -/
+def safeChain (fuel : Nat) : List FObj → FNode → String × Option (FNode × List FObj)
+  | [], n => ("", some (n, []))
+  | f :: fs, n =>
+    let pre := " " ++ f.label ++ ":" ++ showBit (f.safe n) ++ ":"
+    match f.process fuel n with
+    | .error e => (pre ++ e.name, none)
+    | .ok (n', f') =>
+      let (s, r) := safeChain fuel fs n'
+      (pre ++ "ok" ++ s, r.map fun (n'', fs') => (n'', f' :: fs'))
+
+def safeScript (fuel : Nat) : List FObj → List FNode → List String
+  | _, [] => []
+  | fs, n :: rest =>
+    match safeChain fuel fs n with
+    | (s, none) => [s]
+    | (s, some (n', fs')) => s :: safeScript fuel (fs'.map (noteLast n'.text)) rest
+
+/-- `filtersafe <sexp> …` → `ok stripcomments=1 spaces=1 stripws=b reindent=b aligned=b | …` (one group per statement);
+`filtersafe chain=<f1,f2,…> <fuel> <sexp> …` → `ok <f1>:<b>:<ok|Exception> <f2>:… | …`: every statement through the chain
+(filter syntax of `treefilter`), per stage the predicate on the tree that stage receives and what the stage did; the
+report stops at the first exception -/
+def cmdFilterSafe (ws : List String) : String :=
+  match words ws with
+  | first :: rest =>
+    if first.startsWith "chain=" then
+      match rest with
+      | fuel :: rest' =>
+        match fuel.toNat?, parseNodes rest', parseFObjs (((dropStr 6 first).splitOn ",").filter (· ≠ "")) with
+        | some fuel, some ns, some fs => "ok" ++ " |".intercalate (safeScript fuel fs (ns.map FNode.ofNode))
+        | _, _, _ => "bad-request"
+      | [] => "bad-request"
+    else
+      match parseNodes (first :: rest) with
+      | some ns => "ok " ++ " | ".intercalate (ns.map fun n => safeLine (FNode.ofNode n))
+      | none => "bad-request"
+  | [] => "bad-request"
 
 def cmdSerialize (ws : List String) : String :=
   match parseNodes (words ws) with
